@@ -113,8 +113,10 @@ def base_grid(tier, monitors, gregory_only=False, meek_only=False, symtie=False,
                 continue
             slow4 = rule in ('meek', 'warren', 'meek-prf', 'qpq') or opts.get('arithmetic') == 'guarded'
             for seats in ((2, 3) if quick else (1, 2, 3)):
-                jobs.append(job(rule, opts, 4, seats, 1 if quick else 2, 7 if quick else ((6 if seats < 3 else 5) if slow4 else 8), monitors, B,
-                                symtie=symtie, weight=2 if quick else 20))
+                n4 = 7 if quick else ((6 if seats < 3 else 5) if slow4 else 8)
+                if rule == 'meek-prf' and not quick:
+                    n4 = 4          # nine-digit arithmetic: the slowest rule
+                jobs.append(job(rule, opts, 4, seats, 1 if quick else 2, n4, monitors, B, symtie=symtie, weight=2 if quick else 20))
         if want('scotland') and not meek_only:
             # three-way ties whose earlier stages differ (rules 49/51) need four candidates and transfers
             jobs.append(job('scotland', {}, 4, 2, 2, 5 if quick else 6, monitors, B, symtie=symtie, weight=4))
